@@ -92,7 +92,7 @@ func (C11) Meta() core.Meta {
 		Real:        []string{"filippo.io/age Encrypt (label comparison, wrap loop, header marshal)", "native recipients"},
 		Stub:        []string{"sim-owned recipients with chosen label lists / injected wrap failure", "destination (write-call counter)", "crypto/rand.Reader (tape)"},
 		FaultKinds:  []string{"fault.wrap_failure"},
-		Probes:      []string{"probe.equal_sets_different_order", "probe.proper_subset", "probe.disjoint", "probe.empty_vs_absent", "probe.scrypt_with_other", "probe.two_scrypt", "probe.refused_labels", "probe.refused_wrap_failure", "probe.accepted", "probe.fail_at_last_position", "probe.differ_at_last_position", "probe.repeated_label_same_multiset", "probe.repeated_label_sets_differ", "probe.repeated_label_ambiguous", "probe.refused_after_more_than_4KiB_of_header"},
+		Probes:      []string{"probe.equal_sets_different_order", "probe.proper_subset", "probe.disjoint", "probe.empty_vs_absent", "probe.scrypt_with_other", "probe.two_scrypt", "probe.refused_labels", "probe.refused_wrap_failure", "probe.accepted", "probe.fail_at_last_position", "probe.differ_at_last_position", "probe.repeated_label_same_multiset", "probe.repeated_label_sets_differ", "probe.repeated_label_ambiguous", "probe.refused_after_more_than_4KiB_of_header", "probe.labels_with_space_or_empty"},
 	}
 }
 
@@ -152,7 +152,24 @@ func (C11) Generate(r *core.RNG, tier string, idx uint64) interface{} {
 	if n > 4 && r.Bool() {
 		pos = n - 1 - r.Intn(3)
 	}
-	switch r.Intn(10) {
+	switch r.Intn(11) {
+	case 10: // labels that only differ once they are joined or trimmed: "a b" vs "a","b"; "" vs nothing; " " vs ""
+		pairs := [][2][]string{{{"a b"}, {"a", "b"}}, {{"x", "y z"}, {"x", "y", "z"}}, {{""}, {}}, {{"", ""}, {" "}}, {{"a "}, {"a"}}, {{"a,b"}, {"a", "b"}}}
+		pr := pairs[r.Intn(len(pairs))]
+		for i := range p.Recips {
+			ls := pr[0]
+			if i == pos {
+				ls = pr[1]
+			}
+			v := "list"
+			if len(ls) == 0 {
+				v = "empty"
+			}
+			p.Recips[i] = LRecip{Variant: v, Labels: append([]string(nil), ls...), XKey: i % 8}
+		}
+		if len(p.Recips) == 1 {
+			p.Recips = append(p.Recips, LRecip{Variant: "list", Labels: append([]string(nil), pr[0]...), XKey: 7})
+		}
 	case 8: // a label repeated inside one list: same multiset everywhere (must be accepted) ...
 		if len(base) > 0 {
 			rep := append(shuffled(base), base[r.Intn(len(base))])
@@ -236,7 +253,7 @@ func (C11) Shrinks(plan interface{}) []interface{} {
 func setKey(ls []string) string {
 	s := append([]string(nil), ls...)
 	sort.Strings(s)
-	return strings.Join(s, "\x00")
+	return fmt.Sprintf("%d:%q", len(s), s) // injective (a plain join is not: [""] vs [])
 }
 
 // pureSetKey: the label list as a set (sorted, repeats removed).
@@ -249,7 +266,7 @@ func pureSetKey(ls []string) string {
 			out = append(out, x)
 		}
 	}
-	return strings.Join(out, "\x00")
+	return fmt.Sprintf("%d:%q", len(out), out)
 }
 
 func (e C11) Execute(plan interface{}, c *core.Ctx) *core.Verdict {
@@ -283,9 +300,11 @@ func (e C11) Execute(plan interface{}, c *core.Ctx) *core.Verdict {
 				recips = append(recips, &simLabeled{sp, []string{}})
 			default:
 				recips = append(recips, &simLabeled{sp, append([]string(nil), lr.Labels...)})
-				set = setKey(lr.Labels)
+				if len(lr.Labels) > 0 {
+					set = setKey(lr.Labels)
+				}
 			}
-			if lr.Variant == "list" {
+			if lr.Variant == "list" && len(lr.Labels) > 0 {
 				pure = append(pure, pureSetKey(lr.Labels))
 			} else {
 				pure = append(pure, "")
@@ -364,6 +383,13 @@ func (e C11) Execute(plan interface{}, c *core.Ctx) *core.Verdict {
 		c.Stats.Inc("probe.scrypt_with_other")
 	}
 	expectOK = allEqual && !anyFail
+	for _, lr := range p.Recips {
+		for _, l := range lr.Labels {
+			if l == "" || strings.ContainsAny(l, " ,") {
+				c.Stats.Inc("probe.labels_with_space_or_empty")
+			}
+		}
+	}
 	for _, lr := range p.Recips {
 		if lr.Variant == "list" && pureSetKey(lr.Labels) != setKey(lr.Labels) {
 			if allEqual {
